@@ -8,7 +8,7 @@ TRUSTED_BASE = [
     "pen-and-paper induction step: closure of the canonical state family + one symbolic step => all streams/histories (DESIGN.md section 1)",
 ]
 
-COMMON_OUTSIDE = "outside the claim: release-profile codegen beyond native replay, non-host targets, timing, stack usage"
+COMMON_OUTSIDE = "every harness loop has a concrete trip count; the global unwind bound is 300 with unwinding assertions on, so a loop inside the real code (e.g. a table search introduced by a refactoring) is either fully unrolled or reported as inconclusive, never silently truncated; outside the claim: release-profile codegen beyond native replay, non-host targets, timing, stack usage"
 
 P = {}
 
@@ -27,7 +27,7 @@ prop("C01",
      encoded=["ScancodeSet2::advance_state", "ScancodeSet2::map_scancode", "ScancodeSet2::map_extended_scancode",
               "ScancodeSet2::map_extended2_scancode", "ScancodeSet2::new", "Keyboard::add_byte"],
      bounds="symbolic byte (256 values) in each of the 6 canonical prefix contexts = all 1536 transitions; no loops in the code; "
-            "thorough: 4 symbolic bytes from new() = all 2^32 streams of length 4 (harness loop, unwind 5, unwinding assertions on)",
+            "thorough: 4 symbolic bytes from new() = all 2^32 streams of length 4 (harness loop of 4)",
      assumptions=["Set 2 code 0x84 may decode as UnknownKeyCode or SysRq (references disagree)",
                   "break form of a status byte (F0 00, F0 AA) is unconstrained",
                   "a prefix byte (E0/E1/F0) in a non-prefix position is an undefined code"],
@@ -52,19 +52,19 @@ prop("C04",
      title="Reported modifier state is exactly the history of modifier key events",
      encoded=["EventDecoder::process_keyevent", "EventDecoder::new", "Keyboard::process_keyevent", "Keyboard::get_modifiers", "Keyboard::new"],
      bounds="all 512 modifier records x 2 modes (each reached from new() by <= 9 presses) x every key x 3 key states in one query; "
-            "thorough: 3 symbolic events from new() against the statement's most-recent-event/parity reading (unwind 4)",
+            "thorough: 3 symbolic events from new() against the statement's most-recent-event/parity reading ",
      samples="modstep", graph="event")
 prop("C05",
      title="PS/2 frames: accepted iff start=0, stop=1, odd parity; yield the data byte",
      encoded=["Ps2Decoder::add_word", "Ps2Decoder::check_word", "Ps2Decoder::get_bit", "Ps2Decoder::has_even_number_bits", "Keyboard::add_word"],
-     bounds="all 2048 11-bit words; all 256 bytes x 11 single-bit flips; thorough: all 256 x 110 double-bit flips; reference parity is a 9-step fold (unwind 11)",
+     bounds="all 2048 11-bit words; all 256 bytes x 11 single-bit flips; thorough: all 256 x 110 double-bit flips; reference parity is a 9-step fold",
      assumptions=["words >= 2048 are outside the documented packing (covered for panic-freedom by C08)"],
      samples="frame", graph="frame")
 prop("C06",
      title="Bit-serial framing equals whole-word decoding; frames are independent",
      encoded=["Ps2Decoder::add_bit", "Ps2Decoder::clear", "Ps2Decoder::add_word", "Ps2Decoder::new", "Keyboard::add_bit", "Keyboard::clear"],
      bounds="11 symbolic bits from new() (all 2048 frames, every partial state on the way); clear() after k <= 10 symbolic bits; "
-            "thorough: frame, k bits + clear, frame (all ordered pairs) also through Keyboard; harness loops unwind 12, unwinding assertions on",
+            "thorough: frame, k bits + clear, frame (all ordered pairs) also through Keyboard; harness loops of 10/11 iterations",
      samples="bits", graph="frame")
 prop("C07",
      title="Scancode decoders resynchronise after every event or error",
@@ -75,7 +75,7 @@ prop("C08",
      title="No operation panics or overflows for any input in any reachable state",
      encoded=["ScancodeSet1::advance_state", "ScancodeSet2::advance_state", "Ps2Decoder::add_bit/add_word/clear", "EventDecoder::process_keyevent",
               "Keyboard::add_bit/add_byte/add_word/process_keyevent/clear", "<layout>::map_keycode x10 (+AnyLayout, &AnyLayout thorough)", "Modifiers::is_*"],
-     bounds="every byte x 2 from every canonical context; all 65536 words; 12 bits from every partial-frame state with interleaved clear (unwind 13); "
+     bounds="every byte x 2 from every canonical context; all 65536 words; 12 bits from every partial-frame state with interleaved clear ; "
             "two events from all 1024 event-decoder states; every key x 512 modifier records x 2 modes per layout",
      assumptions=["reachable states = the canonical families proved closed by C01/C02/C06/C04"],
      samples="frame")
@@ -102,14 +102,14 @@ prop("C12",
      encoded=["<layout>::map_keycode for the ten layouts"],
      bounds="symbolic character 0x20..0x7E, both modes; quick: solver verifies a natively found witness table (key, level) for the symbolic "
             "character, falling back to the direct loop for characters without witness; thorough: direct forall-c exists-key-level with a loop "
-            "over all keys x 3 levels (unwind 258 >= number of keys + 1, unwinding assertions on)",
+            "over all keys x 3 levels ",
      assumptions=["levels are: no modifier, left Shift, AltGr alone; NumLock in its initial (on) state"],
      samples="map")
 prop("C13",
      title="Set 1 and Set 2 decode consistently under the i8042 translation",
      encoded=["ScancodeSet1::advance_state", "ScancodeSet2::advance_state", "Keyboard::add_byte/process_keyevent (thorough)"],
      bounds="forward: symbolic Set 2 code with a translation x make/break x 3 prefix classes; backward: symbolic Set 1 code < 0x80 x make/break x 3 "
-            "prefix classes with a loop over <= 2 preimages (unwind 4)",
+            "prefix classes with a loop over <= 2 preimages ",
      assumptions=["status bytes 00/AA have no translation and are excluded", "open known findings excluded by kani::assume and re-tested concretely"],
      samples="xlat")
 prop("C14",
@@ -140,7 +140,7 @@ prop("C18",
      encoded=["Keyboard::add_bit", "Keyboard::add_word", "Keyboard::add_byte", "Keyboard::process_keyevent", "Keyboard::clear", "Keyboard::set_ctrl_handling",
               "Keyboard::new", "Ps2Decoder::*", "ScancodeSet1/2::advance_state", "EventDecoder::*"],
      bounds="one operation with symbolic argument from the product of: any partial frame (k <= 10 symbolic bits), any canonical prefix context, any of the "
-            "1024 event-decoder states; both scancode sets; unwind 12; thorough: 3 symbolic operations from new()",
+            "1024 event-decoder states; both scancode sets; thorough: 3 symbolic operations from new()",
      samples="set2", graph="all")
 prop("C19",
      title="Make/break pairing and one-to-one sequences within each scancode set",
